@@ -11,7 +11,7 @@ from lib import esc, unesc, esc_list, unesc_list
 THEOREMS = ['C05.C05_rule_lines_untouched_complain', 'C05.C05_rule_lines_untouched_enforce',
             'C05.C05_complain_sets', 'C05.C05_enforce_unsets', 'C05.C05_complain_keeps_other_flags',
             'C05.C05_enforce_keeps_other_flags', 'C05.C05_enforce_listed_twice', 'C05.C05_complain_every_block',
-            'C05.C05_enforce_every_block']
+            'C05.C05_enforce_every_block', 'C05.C05_setflags_header']
 FLAGS = re.compile(r'flags=\(([^)]*)\)')
 HDR = re.compile(r'^\s*(profile\s|hat\s|\^)')
 
